@@ -25,3 +25,17 @@ CLAIMS["C10"] = dict(
     note="Deterministic conservation is judged to 1e-6 relative (scipy odeint tolerance assumed; failed integrations are skipped and counted). Crashes of solve_stochast are tagged, not judged (C04/C11/C15 own them). "
          "Adaptive tau runs are cut at 8 s (termination is a probability-one statement).",
     technique="Lean 4 induction over events/steps + Mathlib is_const_of_deriv_eq_zero + model/code correspondence")
+CLAIMS["C02"] = dict(
+    text="PARTIAL: the accuracy of scipy's integrators is assumed (an ideal flow with the identity and semigroup laws is a hypothesis of every theorem) and validated at run time; "
+         "what is proved in Lean, for every state/time type, every grid (any length, uniform or not), every method string, both full_output values and every buffer-aliasing table, is the "
+         "row bookkeeping of integrateFuncJac / _integrateOneStep / _setupIntegrator / _determineIntegratorGivenEigenValue / _setIntegrateTime / integrate / integrate2 / solve_determ: "
+         "one row per requested time, in order, preceded by x0 where the origin is included, each row the flow at that time (rows_correct: whenever r.y is copied, or the integrator does not alias "
+         "its buffer, or the full-output path re-creates the integrator from (o1, deltaT)); rows_aliased proves the former defect (aliased buffer, no copy: every row is the final state); "
+         "method_dispatch states the two decision tables outright. The model is tied to the code on every run (i) exactly, by driving the real functions with a fake exact integrator of x'=c "
+         "with a chosen buffer behaviour, and (ii) by running every entry point x 6 methods x full_output x includeOrigin on random and catalogue models against an independent reference "
+         "(solve_ivp DOP853 1e-12, Radau cross-check, right-hand side from the Lean driver's assembled equations), acceptance |row-ref| <= 1e-6(1+|ref|).",
+    note="Trusted: Lean kernel; scipy.integrate.solve_ivp as reference; the harness fake integrator, float evaluator and generators; hand-written catalogue equations. "
+         "Assumed and validated per run: scipy's ode/odeint approximate the flow (well-conditioned instances only; for the odeint entry points, which run at scipy's default tolerance 1.49e-8, "
+         "the acceptance is max(1e-6, 20 x the error of scipy's own odeint on the same instance)); set_initial_value copies; `aliased` is measured on the real scipy (lsoda aliases in scipy 1.18). "
+         "solve_determ is covered for fixed (non-random) parameters only. Integration failure (IntegrationError) is outside the model.",
+    technique="Lean 4 induction over the time grid with buffer cells (value | reference) + exact fake-integrator correspondence + independent-reference oracle")
